@@ -48,4 +48,7 @@ def templates(cfg):
     T("cast_in_when", lambda p, t: t >> p.mutate(y=p.when(t.p).then(t.f.cast(p.Int64())).otherwise(t.a)))
     T("cast_of_when", lambda p, t: t >> p.mutate(y=p.when(t.p).then(t.f).otherwise(t.a).cast(p.Int64())))
     T("cast_group_key", lambda p, t: t >> p.mutate(k=t.f.cast(p.Int64())) >> p.group_by(p.C.k) >> p.summarize(n=p.count()))
+    from . import temporal
+
+    out += temporal.templates_for("C17", cfg)
     return out
